@@ -355,3 +355,23 @@ func zzC17_selftest() {
 	r.ServeCOAP(&zzRW{}, req)
 	symAssert(hit == 0, "selftest: must fail")
 }
+
+// litmus for the data-race oracle: Router.Use appends to the middleware list without the lock and ServeCOAP reads
+// it without the lock - the two are not among the operations the property lists as concurrent, which makes the pair
+// a ready-made race in the unchanged code. The oracle must report it (a silent oracle would pass everything).
+func zzC17_race_selftest() {
+	r := NewRouter()
+	_ = r.Handle("/a", HandlerFunc(func(w ResponseWriter, m *Message) {}))
+	done := 0
+	go func() {
+		r.Use(func(h Handler) Handler { return h })
+		done++
+	}()
+	go func() {
+		req := &Message{Message: pool.NewMessage(context.Background()), RouteParams: new(RouteParams)}
+		_ = req.SetPath("/a")
+		r.ServeCOAP(&zzRW{}, req)
+		done++
+	}()
+	symWaitUntil(func() bool { return done == 2 })
+}
